@@ -172,3 +172,8 @@ def replay(ctx, payload):
     r = c05.qei_oracle(payload["input"])
     return dict(r, signature=r["signature"].replace("C05:", "C17:", 1)) if r else None
   return oracle(payload["input"])
+
+# --- second build round: additions to the claimed level
+LEVEL_TEXT += ("; the parallel-EI loop (which factor, means and draws each candidate set gets) is the executable model Model/ParallelEI.v with theorems "
+               "Props/C05_qei.v, tied to the running _evaluate_at_point_list by an exact correspondence on a stub predictor")
+TECHNIQUE += " + in-Coq differential correspondence for the parallel-EI loop"
